@@ -422,7 +422,7 @@ func c06GridEnv(t *c06Ty, atRoot int) *c06Env {
 // ---------------------------------------------------------------------------
 
 func runC06(r *Run) {
-	r.Rule = "level api: (G, e) pairs with G = object types for matrix/steps/needs/inputs/secrets/jobs (+ workflow_dispatch inputs) given to a fresh ExprSemanticsChecker and e a type-directed expression; for every pair accepted under G the checker is re-run under EVERY single loosening of G (each non-any type occurrence -> any, each closed object -> open with its properties kept, each object -> open object without known properties, each closed all-string object -> {string => string}). Families: grid = all types of nesting depth <= 2 over {any,null,number,bool,string} x fixed expression templates (exhaustive), random = generated environments (depth <= 3) x generated expressions. level lint: generated clean workflows (matrix rows/include, dispatch inputs, popular action outputs, job outputs, local reusable workflow/action) re-linted with one literal definition replaced by a dynamic or unknown one; build matrix shapes: plain, rows/nested arrays with conflicting literals, no rows with literal-typed include elements, rows plus include literals that conflict with the row or with each other (a key is any only through include; one include element - first/middle/last - or the include section replaced by an any-typed expression or an open object). Non-trivial = distinct (G, e) resp. (workflow, replacement) whose antecedent held (no diagnostic before loosening)."
+	r.Rule = "level api: (G, e) pairs with G = object types for matrix/steps/needs/inputs/secrets/jobs (+ workflow_dispatch inputs) given to a fresh ExprSemanticsChecker and e a type-directed expression; for every pair accepted under G the checker is re-run under EVERY single loosening of G (each non-any type occurrence -> any, each closed object -> open with its properties kept, each object -> open object without known properties, each closed all-string object -> {string => string}). Families: grid = all types of nesting depth <= 2 over {any,null,number,bool,string} x fixed expression templates (exhaustive), random = generated environments (depth <= 3) x generated expressions. level lint: generated clean workflows (matrix rows/include, dispatch inputs, popular action outputs, job outputs, local reusable workflow/action) re-linted with one literal definition replaced by a dynamic or unknown one; build matrix shapes: plain, rows/nested arrays with conflicting literals, no rows with literal-typed include elements, rows plus include literals that conflict with the row or with each other (a key is any only through include; one include element - first/middle/last - or the include section replaced by an any-typed expression or an open object; an include element of closed string-object type becoming {string => string}), whole matrix given by ONE expression of closed object type (fromJSON literal with optional include/exclude members, declared job outputs) replaced by the same object opened with and without its keys, by {string => string}, by an any-typed expression, or by the literal with an include member that is not array<object>. Non-trivial = distinct (G, e) resp. (workflow, replacement) whose antecedent held (no diagnostic before loosening)."
 	r.Assume("the checker is given every context and special function as available (SetContextAvailability / SetSpecialFunctionAvailability); availability is independent of the typing environment")
 	r.Assume("environments respect the documented ObjectType invariant (properties of a map object are assignable to its mapped type)")
 	r.Assume("verdicts are functions of (G, e): ObjectType.Merge folds new members into a non-any mapped type in map iteration order (Merge is not associative), so merges of a map object with an object adding two or more members are kept out of the generated environments/expressions, and a disagreement is reported only if it reproduces in three more identical runs")
